@@ -26,6 +26,7 @@ import io
 import json
 import multiprocessing
 import os
+import resource
 import sys
 import time
 
@@ -56,6 +57,7 @@ KNOWN_SIGS = (SIG_COLLIDE, SIG_SAME, SIG_EID, SIG_SWALLOW, SIG_TYPE0)
 CORPUS = os.path.join(VERIF, 'harness', 'corpus', 'C08_reencoding_witnesses.json')
 
 CRC_W = {1: 2, 2: 4}
+MEM_CAP = 3 << 29       # 1.5 GiB of address space per process while the agent handles corrupted input
 GEN = {1: 0x11021, 2: 0x11EDC6F41}      # x^16+x^12+x^5+1 ; Castagnoli
 
 
@@ -191,7 +193,15 @@ def feed(data):
     drv = driver()
     seen0 = drv.seen()
     pend0 = drv.reassembly_pending()
-    obs = drv.recv(data)
+    # A corrupted head can turn a byte-string field into an unsigned integer n, and BstrField.m2i then
+    # evaluates bytes(n): n zero octets (gigabytes for a 4-octet argument).  Cap the address space while the
+    # agent runs so that this surfaces as MemoryError (= dropped) instead of exhausting the machine.
+    (soft, hard) = resource.getrlimit(resource.RLIMIT_AS)
+    resource.setrlimit(resource.RLIMIT_AS, (MEM_CAP if hard == resource.RLIM_INFINITY else min(MEM_CAP, hard), hard))
+    try:
+        obs = drv.recv(data)
+    finally:
+        resource.setrlimit(resource.RLIMIT_AS, (soft, hard))
     eff = []
     if drv.seen() != seen0:
         eff.append('recorded-as-seen')
@@ -953,6 +963,8 @@ def main():
                     if verdict == 1 and not res['dropped']:
                         if name == 'strict' and res['sig'] in KNOWN_SIGS:
                             continue        # the strict codec model has none of the lax readings: explained by the finding
+                        if name == 'lax' and res['sig'] == SIG_EID and any(octet in (9, 10, 13) for octet in bad_oct[off:off + len(xs_hex) // 2]):
+                            continue        # urlsplit also deletes TAB / LF / CR; Bundle.impl_norm_ssp does not model that (same finding class)
                         model_bad.append('%s model drops, agent does not (%s): %s' % (name, res['effects'], where))
                     if verdict == 2 and res['dropped']:
                         lib_rejects = False
@@ -1069,6 +1081,8 @@ def main():
             'harness stubs (dbus, GLib virtual loop, portion, ...) and bpdrive.BpDriver (fake convergence layer, frozen clock) are trusted-base items',
             'the independent receiver of the oracle = cbor2 block splitting (bundlegen.split_items) + crc_poly over the received block octets',
             'bursts of 2..w bits are sampled (not enumerated: 2^(w-1) patterns per position); single-bit flips are exhaustive per bundle',
+            'Bundle.impl_norm_ssp (model of the EID text conversion) does not model urlsplit deleting TAB/LF/CR: on such corruptions (class "altered '
+            'EID normalised back") the lax model takes no position',
             'Coq model: primary block read strictly; canonical blocks read by the lax model BundleCrc.lblock_of_items (int()/bytes() coercions of '
             'true/false, text, null); it takes no position on anything else',
         ])
